@@ -749,7 +749,7 @@ class VarsManager(object):
         for name in self.complex_vars:
             self.std_polar(name)
 
-    def standard_complex(self):
+    def standard_complex(self, skip=()):
         for k, v in self.complex_vars.items():
             ## TODO complex with constrains
             if isinstance(v, list):
@@ -764,6 +764,10 @@ class VarsManager(object):
                 has_constrains = True
             if k + "i" in self.bnd_dic:
                 has_constrains = True
+            for name in [k + "r", k + "i"]:
+                # fixed or (just un-)bounded components must not be moved
+                if name in skip or name not in self.trainable_vars:
+                    has_constrains = True
             if has_constrains:
                 continue
             self.std_polar(k)
